@@ -148,6 +148,24 @@ def check_closed_forms(F, run, roots):
         run.check(good, "R14.1", dp, "quadratic", where, "degree 2 does not return the two values of the quadratic formula: %r" % (v,), sample="degree 2: (−c1 ± √(c1² − 4 c2 c0)) / (2 c2)")
     except (sym.Unsupported, vecint.IndexPanic) as e:
         run.broken("R14.1", dp, "closed-forms", where, str(e))
+    # complex coefficients, in particular a leading coefficient off the real axis ("random scalings of the leading coefficient"): exact Gaussian rationals
+    # a·(x − r1)(x − r2) whose discriminant a²(r1 − r2)² has an exact square root
+    a_, r1_, r2_ = 1 + sp.I, 1 + sp.I / 2, -2 + sp.I
+    try:
+        cc = [sp.expand(a_ * r1_ * r2_), sp.expand(-a_ * (r1_ + r2_)), a_]
+        v, it = call_roots(F, roots, cc)
+        good = isinstance(v, sym.Variant) and v.name == "Ok" and len(v.args[0]) == 2
+        if good:
+            got = [sp.simplify(sp.nsimplify(x)) for x in v.args[0]]
+            good = (sym.is_zero(sp.simplify(got[0] - r1_)) and sym.is_zero(sp.simplify(got[1] - r2_))) or (sym.is_zero(sp.simplify(got[0] - r2_)) and sym.is_zero(sp.simplify(got[1] - r1_)))
+        run.check(good, "R14.1", dp, "quadratic:complex-leading-coefficient", where,
+                  "(1+i)(x − (1+i/2))(x − (−2+i)) does not give back its two roots: %r" % (v,), sample="degree 2, complex leading coefficient")
+        lc = [1 + 3 * sp.I, 2 - sp.I]
+        v, it = call_roots(F, roots, lc)
+        good = isinstance(v, sym.Variant) and v.name == "Ok" and len(v.args[0]) == 1 and sym.is_zero(sp.simplify(v.args[0][0] + lc[0] / lc[1]))
+        run.check(good, "R14.1", dp, "linear:complex", where, "degree 1 with complex coefficients returns %r, expected [−c0/c1]" % (v,), sample="degree 1, complex")
+    except (sym.Unsupported, vecint.IndexPanic) as e:
+        run.broken("R14.1", dp, "closed-forms:complex", where, str(e))
 
 
 def check_general_branch(F, run, roots, tier):
